@@ -120,8 +120,9 @@ def generate(seed, tier):
     cname = type(s).__name__
     single = 'SINGLE_END' in cname or (s.shortName == 'ILLU' and w.random() < 0.5)
     nmates = 1 if single else 2
-    bpos, upos = _strategy_layout(s)
-    alias = getattr(s, 'barcodeFileAlias', None)
+    inner = getattr(s, 'chic_demux', None)       # CHICTV wraps another strategy and additionally needs the template-switching oligo in R1
+    bpos, upos = _strategy_layout(inner or s)
+    alias = getattr(inner or s, 'barcodeFileAlias', None)
     whitelist = sorted(bp.barcodes[alias]) if alias and alias in bp.barcodes else []
     idx_list = sorted(ip.barcodes['illumina_merged_ThruPlex48S_RP'])
     n = weighted(w, [(0, 1), (w.randint(1, 4), 4), (w.randint(5, 40), 6), (w.randint(41, 300), 2)])
@@ -150,6 +151,9 @@ def generate(seed, tier):
                 for (r, p), b in zip(bpos, bc):
                     if r < nmates and p < len(seqs[r]):
                         seqs[r][p] = b
+        if inner is not None and cls in ('exact', 'mm1', 'N_in_umi') and w.random() < 0.8 and len(seqs[0]) >= prefix_end[0] + 12:
+            at = w.randint(prefix_end[0] + 2, len(seqs[0]) - 9)
+            seqs[0][at:at + 9] = list('AGACTCTTT')
         if cls == 'N_in_umi' and upos:
             r, p = w.choice(upos)
             if r < nmates and p < len(seqs[r]):
